@@ -7,7 +7,7 @@ from diffcheck import Spec, run_spec
 HARNESSES = [("h_lifecycle", "plain", ())]
 
 T_BEH = "cdfhrRp"
-H_FAST = "cfkdbhrz"
+H_FAST = "cfkdbhrzsSt"
 H_SLOW = "ijmw"
 
 
@@ -23,9 +23,11 @@ class C08(Spec):
             "Raw Tcp::Handler (T): connect+close, data+close, data/echo/close, data+shutdown(WR), data+RST, immediate RST, "
             "4 MB write requested then closed unread (pending writes at abort). Http::Endpoint with 600 ms time-outs (H): "
             "connect+close, request/response, keep-alive x2, partial head, partial body, request+shutdown(WR), request+RST, request for a slow 24 MB answer and close at once (the answer is written to a peer that has gone), "
+            "a 16 MB file served with Http::serveFile and abandoned after 17 bytes, the same file downloaded completely, an answer sent after ResponseWriter::timeoutAfter(300 ms) was armed, "
             "silence until the idle scan closes, partial head then silence, answered request then silence, a 24 MB answer never read (write blocked over several idle scans, 408 queued behind it) then RST. Per peer id the "
-            "callback log (C connection, I input/request, D disconnection), callbacks after D, and /proc/self/fd against the "
-            "idle baseline are compared with the model's log for the same event history. non-trivial = a case with an "
+            "callback log (C connection, I input/request, D disconnection), callbacks after D, /proc/self/fd against the "
+            "idle baseline, and - after every round - as many fresh connections as the round had, which must each receive exactly "
+            "the answer to their own request (nothing an earlier connection on the same descriptor number left unsent), are compared with the model's log for the same event history. non-trivial = a case with an "
             "abortive or time-out ending; distinct by case line")
     assumptions = ["the number of onInput calls per connection depends on TCP segmentation and is collapsed to 'some'/'none'",
                    "an RST that arrives before accept() is still delivered as a connection by the kernel (Linux behaviour)",
@@ -41,6 +43,12 @@ class C08(Spec):
         cases.append("H 2 2 " + ",".join(H_FAST + H_SLOW))
         cases.append("H 1 1 i,i,i,j,m,m,f")
         cases.append("H 2 1 w,f,w,i")
+        cases.append("H 1 3 w")
+        cases.append("H 1 3 s")
+        cases.append("H 2 3 s,z,s,f")
+        cases.append("H 1 4 t,t,f")
+        cases.append("T 1 4 p")
+        cases.append("T 2 3 p,p,f,p")
         nT, nH, nS = (25, 12, 6) if tier == "quick" else (400, 150, 60)
         maxr = 5 if tier == "quick" else 30
         for _ in range(nT):
@@ -68,17 +76,20 @@ class C08(Spec):
             return "%s connections were made but the handler saw %d peers end (%s)" % (f["conns"], len(logs), case)
         if f["after_disc"] != "0":
             return "a callback was delivered for a peer after its disconnection (%s)" % case
+        if f.get("stale", "0") != "0":
+            return ("%s fresh connection(s) received something else than exactly the answer to their own request: what an earlier "
+                    "connection on the same descriptor number left unsent was not released with it (%s)" % (f["stale"], case))
         if f["fd_delta"] != "0":
             return "after all clients were gone the process held %s descriptors more than its idle baseline (%s)" % (f["fd_delta"], case)
         return None
 
     def nontrivial(self, case, impl):
-        return any(b in case.split()[3] for b in "rRpijmwdbhz")
+        return any(b in case.split()[3] for b in "rRpijmwdbhzst")
 
     def kind(self, case, impl):
         t = case.split()
         bs = set(t[3].split(","))
-        return "%s-%sw-%s" % (t[0], t[1], "timeout" if bs & set("ijmw") else ("abort" if bs & set("rRpdb") else "orderly"))
+        return "%s-%sw-%s" % (t[0], t[1], "timeout" if bs & set("ijmw") else ("abort" if bs & set("rRpdbsz") else "orderly"))
 
 
 def run(rep, tier, seed):
